@@ -23,6 +23,18 @@ def gen_rounds(seed, tier, run):
     for o in ("n", "s" + hexs("big"), "s" + hexs("little"), "s" + hexs("Big"), "s" + hexs("middle"), "s"):
         out.append(f"unpack_bits a2:6,255 n n {o}")
         out.append(f"pack_bits a9:1,0,1,1,0,0,0,1,1 n {o}")
+    # the order by name (both string parsers: &str and String) on asymmetric bytes, flat and along axes
+    for o in ("s" + hexs("big"), "s" + hexs("little")):
+        for b in (1, 2, 6, 77, 128, 200, 254):
+            out.append(f"unpack_bits a1:{b} n n {o}")
+        for sh in ([3], [2, 2], [2, 3], [2, 1, 2]):
+            es = [rng.choice([1, 2, 6, 77, 128, 200, 254, 19]) for _ in range(prod(sh))]
+            for ax in [None] + list(range(-len(sh), len(sh))):
+                out.append(f"unpack_bits {arr(sh, es)} {opt(ax)} n {o}")
+                out.append(f"unpack_bits {arr(sh, es)} {opt(ax)} z5 {o}")
+                out.append(f"pack_bits {arr(sh, [rng.randrange(2) for _ in range(prod(sh))])} {opt(ax)} {o}")
+        for L in (1, 3, 8, 9, 15, 17):
+            out.append(f"pack_bits {arr([L], [1] + [rng.randrange(2) for _ in range(L - 1)])} n {o}")
     for sh in shapes(3, 3):
         n = len(sh)
         es = [rng.randrange(256) for _ in range(prod(sh))]
